@@ -177,6 +177,12 @@ func (cmb Combiner) GenAdditiveShare(activesPoints []ShamirPublicPoint, ownPoint
 		}
 	}
 
+	// A Lagrange factor that vanishes modulo one of the moduli: two of the combined points are congruent modulo
+	// that modulus (or one is a multiple of it), there the shares do not determine the secret.
+	if slices.Contains(prod, 0) {
+		return fmt.Errorf("cannot GenAdditiveShare: the active points are not pairwise distinct and non-zero modulo every modulus of the ring")
+	}
+
 	cmb.ringQP.MulRNSScalarMontgomery(ownShare.Poly, prod, skOut.Value)
 	return
 }
